@@ -30,9 +30,13 @@ def main():
         return chk.finish("anchor missing - fail closed", [], [], exhaustive=False)
     except SystemExit:
         raise
-    except Exception:
-        traceback.print_exc()
-        return 2
+    except Exception as e:
+        # a rule met a construct it cannot interpret: that is not a verdict about the property, but the clause can no longer
+        # be decided on this tree - fail closed and say so
+        tb = traceback.format_exc()
+        sys.stderr.write(tb)
+        chk.bad("undecided", "rule evaluation failed", "the rule evaluator could not interpret the current tree (fail closed): %s: %s" % (type(e).__name__, e), tb.strip().splitlines()[-3].strip() if tb else "")
+        return chk.finish("rule evaluation failed - fail closed", [], [], exhaustive=False)
 
 
 if __name__ == "__main__":
